@@ -601,21 +601,112 @@ def install_scipy(reg, src):
         ub = ip.getattr(v, "ub")
         return SpecFn(None, "ub-or-inf", meta={"opt": ub, "inf": "inf"})
 
-    @reg.contract(f"{SC}:_build_solver_cache", props=["C09", "C10", "C12"],
-                  bounded="builds the SciPy constraint dict list in a loop with default-argument lambdas; the compiled objective / "
-                          "Jacobian it stores come from compile_expression / compile_jacobian (contracts C01/C03); exercised by "
-                          "the bounded stand-in")
+    @reg.contract(f"{SC}:_build_solver_cache", props=["C09", "C10", "C12", "C06"], cases={"sense": ["minimize", "maximize"]})
     def _(c):
+        from pyvc.contracts import ListSpec
+        from .specfns import WF
         sp = Spec(c.ip)
         ip = c.ip
         P = c.arg("problem", T.obj("Problem", exact=True))
-        vs = c.arg("variables")
+        ip.path.assume(z3.Select(st(ip, "Problem._constraints!len", sym.I), P.ref) >= 0)
         s0 = PState(ip, P)
         vbase = varlist_base(s0)
+        if c.verifying:
+            vs = c.arg("variables", T.custom(lambda ip_, h: ip_.schema.seq_of_base(ip_, vbase, "Variable")))
+            c.assume(s0.sense == sym.lit(c.case["sense"]))
+        else:
+            vs = c.arg("variables")
+            if not (isinstance(vs, SSeq) and vs.tag and vs.tag[2].eq(vbase)):
+                raise Unsupported("_build_solver_cache called with a variable list other than problem.variables")
         d, IDX, n = solver_cache_for(ip, sp, P, s0, vbase)
         ip.path.ghost["scipy_ctx"] = {"IDX": IDX, "n": n, "vbase": vbase, "cache": d}
-        c.raises("NoObjectiveError", when=s0.obj_none)
+        c.raises("NoObjectiveError", when=s0.obj_none, name="raises NoObjectiveError iff no objective")
+        # preconditions: well-formed model whose variables are all in the list (what Problem.variables guarantees)
+        EXPR = sp.S.F("expr", sym.Ref)
+        objx = Opaque(s0.obj, "Expression")
+        NS = NAMES_OF(vbase)
+        wfall = named_forall(ip, "CONWF", [s0.cons], s0.ncon, lambda k: WF(EXPR(z3.Select(s0.cons, k))))
+        covall = named_forall(ip, "CONCOV", [s0.cons, NS], s0.ncon, lambda k: reg.COVERS(EXPR(z3.Select(s0.cons, k)), NS))
+        c.requires(z3.Implies(z3.Not(s0.obj_none), z3.And(sp.wf(objx), reg.covers(sp, objx, NS))), name="well-formed objective over the variable list")
+        c.requires(z3.And(wfall(s0.ncon), covall(s0.ncon), DISTINCT(vbase)), name="well-formed constraints over the variable list")
         c.returns(lambda cc: d)
+        if not c.verifying:
+            return
+        names_of_varlist(ip, vs)
+        V = vs
+        ismax = c.case["sense"] == "maximize"
+
+        # ---- loop 1: bounds list, one (lb or -inf, ub or +inf) pair per variable, in order
+        def bounds_elem(k):
+            return d.items["bounds"].get(k)
+
+        def bounds_equal(ip2, appended, k):
+            v = V.get(k)
+            lb, ub = ip2.getattr(v, "lb"), ip2.getattr(v, "ub")
+            goals = []
+            if not isinstance(appended, tuple) or len(appended) != 2:
+                return [z3.BoolVal(False)]
+            for got, opt, inf in ((appended[0], lb, float("-inf")), (appended[1], ub, float("inf"))):
+                if isinstance(got, float) and got == inf:
+                    goals.append(opt.isnone)
+                elif isinstance(got, (SReal, SInt, int, float)):
+                    goals.append(z3.And(z3.Not(opt.isnone), real_term(got) == real_term(opt.val)))
+                else:
+                    goals.append(z3.BoolVal(False))
+            return goals
+        # ---- loop 2: SciPy constraint dicts
+        def con_elem(k):
+            return d.items["scipy_constraints"].get(k)
+
+        def con_equal(ip2, appended, k):
+            cref = z3.Select(s0.cons, k)
+            e_ = Opaque(EXPR(cref), "Expression")
+            sense = sp.S.F("sense", sym.Name)(cref)
+            if not isinstance(appended, PDict):
+                return [z3.BoolVal(False)]
+            it = appended.items
+            goals = [ip2.models.name_term(it.get("type")) == z3.If(sense == sym.lit("=="), sym.lit("eq"), sym.lit("ineq"))]
+            X = SArr(sym.fresh("xc", sym.RealArr), n=n, envlink=(IDX, sym.fresh("ENV_c", sym.EnvSort), ip2.path))
+            Ec = X.envlink[1]
+            sp2 = Spec(ip2)
+            ip2.path.assume(sp2.dom(e_, Ec, sp2.PV))
+            fv = ip2.call(it["fun"], [X], {}, None)
+            den = sp2.den(e_, Ec, sp2.PV)
+            goals.append(real_term(fv) == z3.If(sense == sym.lit("<="), -den, den))
+            jv = ip2.models.as_seq(ip2.call(it["jac"], [X], {}, None))
+            skj = skolem(ip2, "sk_cjac", n)
+            dv = sp2.dv(e_, FN(V.get(skj).ref), Ec, sp2.PV)
+            goals.append(z3.Implies(z3.And(skj >= 0, skj < n), real_term(jv.get(skj)) == z3.If(sense == sym.lit("<="), -dv, dv)))
+            return goals
+        c.loop(1, lambda st_: [], havoc={"bounds": ListSpec(bounds_elem, bounds_equal, "bounds"),
+                                         "lb": T.real("float"), "ub": T.real("float")})
+        c.loop(2, lambda st_: [], havoc={"scipy_constraints": ListSpec(con_elem, con_equal, "scipy_constraints"),
+                                         "c_expr": T.expr(), "c_fn": T.custom(lambda ip_, h: SpecFn(None, "hv")),
+                                         "c_jac_fn": T.custom(lambda ip_, h: SpecFn(None, "hv"))})
+
+        def post(res):
+            if not isinstance(res, PDict):
+                return z3.BoolVal(False)
+            it = res.items
+            goals = []
+            X = SArr(sym.fresh("xo", sym.RealArr), n=n, envlink=(IDX, sym.fresh("ENV_o", sym.EnvSort), ip.path))
+            Eo = X.envlink[1]
+            ip.path.havoc_store("_value", sym.R)            # parameters may change between build and call (C12)
+            sp2 = Spec(ip)
+            ip.path.assume(sp2.dom(objx, Eo, sp2.PV))
+            fv = ip.call(it["obj_fn"], [X], {}, None)
+            den = sp2.den(objx, Eo, sp2.PV)
+            goals.append(real_term(fv) == (-den if ismax else den))
+            gv = ip.call(it["grad_fn"], [X], {}, None)
+            row = ip.models.as_seq(ip.call(ip.getattr(gv, "flatten"), [], {}, None))
+            skg = skolem(ip, "sk_grad", n)
+            dv = sp2.dv(objx, FN(V.get(skg).ref), Eo, sp2.PV)
+            goals.append(z3.Implies(z3.And(skg >= 0, skg < n), real_term(row.get(skg)) == (-dv if ismax else dv)))
+            for key_ in ("bounds", "scipy_constraints"):
+                v_ = it.get(key_)
+                goals.append(z3.BoolVal(isinstance(v_, SSeq) and v_.tag == ("listspec", key_)))
+            return goals
+        c.ensures("obj_fn / grad_fn denote the sign-adjusted objective; bounds and constraints lists as specified", post)
 
     @reg.contract(f"{SC}:_compute_initial_point", props=["C09"])
     def _(c):
@@ -765,6 +856,21 @@ def install_scipy_main(reg, src):
         cache_base = z3.Select(st(ip, "Problem._variables", sym.Ref), P.ref)
         c.assume(z3.Implies(z3.Not(vnone), cache_base == vb0))
         reg.assume_varlist_valid(ip, sp, P, s0, vb0)
+        # well-formed model (what "built through the public API" means for the NLP path), and the bridge from
+        # "the variable list has exactly the mentioned names" to the index-map coverage the compilers require
+        from .specfns import WF
+        from .seqtheory import seqs as _seqs, _once as _once1
+        objx0 = Opaque(s0.obj, "Expression")
+        c.assume(sp.wf(objx0))
+        wfall = named_forall(ip, "CONWF", [s0.cons], s0.ncon, lambda k: WF(EXPR(z3.Select(s0.cons, k))))
+        c.assume(wfall(s0.ncon))
+        NS0 = NAMES_OF(vb0)
+        reg.covers_from_occ(sp, objx0, NS0)
+
+        # the one constraint the CONCOV obligation of _build_solver_cache will ask about (its Skolem witness)
+        covall0 = named_forall(ip, "CONCOV", [s0.cons, NS0], s0.ncon, lambda k: reg.COVERS(EXPR(z3.Select(s0.cons, k)), NS0))
+        skc0 = ip.path.ghost["forall_skolems"][("CONCOV", (str(s0.cons), str(NS0)))]
+        reg.covers_from_occ(sp, Opaque(EXPR(z3.Select(s0.cons, skc0)), "Expression"), NS0)
         scnone = s0.cache_none["_solver_cache"]
         c.assume(scnone if case["cache"] == "none" else z3.Not(scnone))
         entry_box = z3.simplify(z3.Select(st(ip, "Problem._solver_cache", sym.Ref), P.ref))
